@@ -221,5 +221,5 @@ def strat_multi():
 UNITS = [
     Unit("single_crash", "enum", body=body, cases=single_cases, exhaustive=True, known=KNOWN, shards_quick=8),
     Unit("crash_sequences", "enum", body=body, cases=multi_cases, exhaustive=True, known=KNOWN, quick_enum=False),
-    Unit("sampled_sequences", "given", body=body, strategy=strat_multi, quick=48, thorough=400, known=KNOWN, shards_quick=8),
+    Unit("sampled_sequences", "given", body=body, strategy=strat_multi, quick=48, thorough=400, known=KNOWN, shards_quick=8, shrink_quick=False),
 ]
